@@ -383,7 +383,11 @@ func (r *run) hook(pt int, detail string) {
 		}
 		return
 	}
-	if inj := r.nested; inj != nil { // a marker of the injected processor step
+	if pt == 9 { // drain sends run in concurrent goroutines: serialise them (also against an injected step)
+		r.drainMu.Lock()
+		r.drainOwn = true
+	}
+	if inj := r.nested; inj != nil && (pt == 7 || pt == 8) { // a marker of the injected processor step
 		if isSend(pt) {
 			a := r.nextAnswer(inj.ans, &inj.ansIdx)
 			r.c.srv.set(a)
@@ -391,10 +395,6 @@ func (r *run) hook(pt int, detail string) {
 			inj.applied = append(inj.applied, a)
 		}
 		return
-	}
-	if pt == 9 { // drain sends run in concurrent goroutines: serialise them
-		r.drainMu.Lock()
-		r.drainOwn = true
 	}
 	r.mu.Lock()
 	die := r.crashed
@@ -951,6 +951,9 @@ func (r *run) Do(op string) string {
 		if len(toks) != 2 || !okAns(toks[1]) {
 			return "badop"
 		}
+		if torn {
+			return "badop"
+		}
 		ans, ordKind = toks[1], "r"
 		f = func() {
 			res = "empty"
@@ -960,6 +963,9 @@ func (r *run) Do(op string) string {
 		}
 	case "retry":
 		if len(toks) != 2 || !okAns(toks[1]) {
+			return "badop"
+		}
+		if torn {
 			return "badop"
 		}
 		ans, ordKind = toks[1], "r"
